@@ -32,7 +32,8 @@ def configs(tier):
                 continue
             out.append({"kind": "crossbar", "c1": c1, "c2": c2})
     out += [{"kind": "method_map"}, {"kind": "filter", "use_condition": False}, {"kind": "filter", "use_condition": True},
-            {"kind": "filter", "use_condition": False, "cond": "wide"}, {"kind": "filter", "use_condition": True, "cond": "wide"}]
+            {"kind": "filter", "use_condition": False, "cond": "wide"}, {"kind": "filter", "use_condition": True, "cond": "wide"},
+            {"kind": "try_product_rival", "rival_first": True}, {"kind": "try_product_rival", "rival_first": False}]
     for n in (1, 2, 3):
         out += [{"kind": "product", "n": n, "combiner": False}, {"kind": "product", "n": n, "combiner": True}, {"kind": "try_product", "n": n}, {"kind": "collector", "n": n}]
     out.append({"kind": "nonexclusive_wrapper"})
@@ -148,6 +149,31 @@ def _run(cfg, ctx, dm):
             ctx.prove(f"t{i}.success_flag_reports_the_call", z3.Implies(M.run, (z3.Extract(i, i, ok) == 1) == t.run), hw=hw)
             ctx.prove(f"t{i}.gets_the_argument", z3.Implies(t.run, t.arg("d") == M.arg("d")), hw=hw)
             ctx.prove(f"t{i}.result_passed_to_combiner", z3.Implies(t.run, z3.Extract(2 * i + 1, 2 * i, rs) == t.res("r")), hw=hw)
+    elif k == "try_product_rival":
+        # a target of the product is also called by somebody else, who wins (or loses) the arbitration for it
+        n = 2
+        tgts = [Adapter(i=LAY, o=OLAY) for _ in range(n)]
+        olay = [("ok", n), ("rs", 2 * n)]
+        dut = TR.MethodTryProduct.create([t.iface for t in tgts], (olay, lambda m, rs: {"ok": Cat(s for s, _ in rs), "rs": Cat(r.r for _, r in rs)}))
+        rival = AdapterTrans.create(tgts[0].iface)
+        subs = {"rival": rival, "dut": dut} if cfg["rival_first"] else {"dut": dut, "rival": rival}
+        th = TH(None, {"method": dut.method}, required={f"t{i}": t for i, t in enumerate(tgts)}, extra_submodules=subs,
+                extra_inputs=[rival.en, rival.data_in.as_value()], extra_outputs=[rival.done, rival.data_out.as_value()], dependency_manager=dm)
+        hw = ctx.use(th.hw)
+        M = th.m["method"]
+        T = [th.m[f"t{i}"] for i in range(n)]
+        rdone, ren = hw.b(rival.done), hw.b(rival.en)
+        ok, rs = M.res("ok"), M.res("rs")
+        ok0, ok1 = z3.Extract(0, 0, ok) == 1, z3.Extract(1, 1, ok) == 1
+        ctx.prove("always_ready", z3.Implies(M.en, M.done), hw=hw)
+        ctx.prove("t0.called_by_exactly_one_party", T[0].run == z3.Or(rdone, z3.And(M.run, ok0)), hw=hw)
+        ctx.prove("t0.success_flag_excludes_the_rival", z3.Implies(M.run, z3.Not(z3.And(ok0, rdone))), hw=hw)
+        ctx.prove("t0.success_means_the_product_argument_arrived", z3.Implies(z3.And(M.run, ok0), z3.And(T[0].run, T[0].arg("d") == M.arg("d"))), hw=hw)
+        ctx.prove("t0.some_requester_is_served", z3.Implies(z3.And(T[0].en, z3.Or(ren, M.run)), T[0].run), hw=hw)
+        ctx.prove("t1.unaffected_by_the_rival", z3.And(T[1].run == z3.And(M.run, T[1].en), z3.Implies(M.run, ok1 == T[1].run)), hw=hw)
+        ctx.prove("t0.result_passed_to_combiner", z3.Implies(z3.And(M.run, ok0), z3.Extract(1, 0, rs) == T[0].res("r")), hw=hw)
+        ctx.cover("both_want_target0", z3.And(M.run, ren, T[0].en), hw=hw)
+        ctx.cover("rival_wins" if cfg["rival_first"] else "product_wins", z3.And(M.run, ren, T[0].en, rdone if cfg["rival_first"] else ok0), hw=hw)
     elif k == "nonexclusive_wrapper":
         tgt = Adapter(i=LAY, o=OLAY)
         dut = TR.NonexclusiveWrapper.create(tgt.iface)
